@@ -253,7 +253,8 @@ fn off_of(name: &str) -> usize {
     REGS.iter().find(|r| r.name == name).unwrap().off
 }
 
-/// Text of the one known deviation (matched by `KNOWN_FINDINGS`).
+/// Failure text for the defect fixed by /repo 058e2dd (listed as `fixed:` in `KNOWN_FINDINGS`): the
+/// `legacy-generation` stream and the random legacy sessions keep exercising it, so a revert is flagged.
 pub const LEGACY_GENERATION_FINDING: &str = "legacy device: read of offset 0xfc (ConfigGeneration), a register the legacy layout of the specification (4.2.4) does not define";
 
 /// O1: width, offset, direction and interface version of every access.
@@ -473,6 +474,12 @@ pub fn oracle_op(legacy: bool, op: &Op, result: &str, trace: &[Access], page_siz
             }
         }
         Op::SetGuestPageSize(p) if legacy => single_write("GuestPageSize", *p as u64, &mut out),
+        Op::ReadGeneration if legacy => {
+            // the legacy layout has no generation register: nothing may be touched
+            if !trace.is_empty() {
+                out.push("read_config_generation on a legacy device touched registers".into());
+            }
+        }
         Op::SetGuestPageSize(_) | Op::RequiresLegacy => {
             if !trace.is_empty() {
                 out.push("operation without device interaction touched registers".into());
@@ -536,14 +543,7 @@ fn gen_op(rng: &mut Rng, legacy: bool, direct: bool) -> Op {
             10 => Op::QueueUnset(q),
             11 => Op::QueueUsed(q),
             12 => Op::AckInterrupt,
-            13 => {
-                // known finding (legacy read of 0xfc): exercised in the dedicated `legacy-generation`
-                // stream only, so that it does not mask other failures in the random sessions
-                if legacy {
-                    continue;
-                }
-                Op::ReadGeneration
-            }
+            13 => Op::ReadGeneration,
             14 => Op::RequiresLegacy,
             _ => {
                 if direct {
@@ -584,7 +584,7 @@ fn gen_reads(rng: &mut Rng, op: &Op, legacy: bool, vendor: u32) -> Vec<u32> {
 enum Kind {
     Random,
     Init,
-    /// legacy device, `read_config_generation` only (the known finding)
+    /// legacy device, `read_config_generation` only (regression stream for /repo 058e2dd)
     LegacyGeneration,
 }
 
@@ -710,7 +710,7 @@ fn session(ctx: &Ctx, idx: usize, id: String, kind: Kind) -> Case {
     for v in mmio::with(|b| std::mem::take(&mut b.violations)) {
         c.fail(format!("bus: {}", v));
     }
-    c.nontrivial = writes > 0 && kind != Kind::LegacyGeneration;
+    c.nontrivial = writes > 0;
     c
 }
 
@@ -824,7 +824,7 @@ pub fn run(ctx: &Ctx) -> (Vec<Case>, String, bool, BTreeMap<String, String>) {
     let ninit = ctx.tier.pick(300, 6000);
     let mut all = crate::runner::par_cases(ctx, "C10", "session", nsess, |i, id| session(ctx, i, id, Kind::Random));
     all.extend(crate::runner::par_cases(ctx, "C10", "init", ninit, |i, id| session(ctx, i, id, Kind::Init)));
-    all.extend(crate::runner::par_cases(ctx, "C10", "legacy-generation", 2, |i, id| session(ctx, i, id, Kind::LegacyGeneration)));
+    all.extend(crate::runner::par_cases(ctx, "C10", "legacy-generation", 4, |i, id| session(ctx, i, id, Kind::LegacyGeneration)));
     // probe: every region size 0..=0x300 (both tiers), every header variant
     all.extend(crate::runner::par_cases(ctx, "C10", "probe", 0x301, |i, id| probe_case(i, id)));
     let rule = format!(
